@@ -131,6 +131,14 @@ CLAIMED["C16"] = dict(
     design_ref="§5 C16",
 )
 
+CLAIMED["C17"] = dict(
+    category="exploration",
+    technique="bounded-exhaustive enumeration of functionals x grids x base profiles x every basis perturbation (segment x bump centre); finite-difference and adjointness oracles on the discretised functional",
+    text="For every functional family, grid type, base profile and every perturbation of the basis (each segment x each Gaussian bump centre of a sub-grid away from the boundary) the Richardson difference of the integrated Helmholtz energy density is compared with the integral of the functional derivative times the perturbation, the adjointness of the weighted-density and functional-derivative convolutions is evaluated without any finite difference through first_partial_derivatives, and the Newton operator (hook H4) applied to the perturbation, including the variation of the bond integrals of chain molecules, is compared with the Richardson difference of the functional derivative itself. Cartesian and periodic grids: 1e-9; curvilinear grids: bands at 10x the intrinsic accuracy of the transforms observed on the pinned tree.",
+    design_ref="§5 C17",
+    note="Trusted base as for the lattice checks. Curvilinear grids (spherical, polar, cylindrical) are only adjoint up to the intrinsic accuracy of their transforms (spherical 4e-7..1e-4, polar up to 1.5e-3), which does not vanish under refinement; the acceptance band there (2e-5..1.2e-3 and 2e-2) is calibrated on the pinned tree and only catches O(1) errors such as a wrong sign, index or partial derivative. Only profiles that are flat at the outer boundary are used on those grids.",
+)
+
 NOT_YET = "check not built yet (work in progress; see DESIGN.md §9 build order) - not a claim that the technique cannot apply"
 
 ALL = ["C%02d" % i for i in range(1, 21)]
